@@ -22,6 +22,8 @@ python3 translator/py2coq_sim.py "$REPO/src/lcm" coq/Gen >> build/translator.log
 echo "translator_sim_status=$?" >> build/translator.log
 python3 translator/py2coq_rc.py "$REPO/src/lcm" coq/Gen >> build/translator.log 2>&1
 echo "translator_rc_status=$?" >> build/translator.log
+python3 translator/py2coq_axes.py "$REPO/src/lcm" coq/Gen >> build/translator.log 2>&1
+echo "translator_axes_status=$?" >> build/translator.log
 cd coq
 if [ ! -f Makefile ] || [ _CoqProject -nt Makefile ]; then
   coq_makefile -f _CoqProject -o Makefile > ../build/coq_makefile.log 2>&1
